@@ -17,7 +17,7 @@ RULE = (
     "(where / SET value / SET key / index_elements / index_where / action), each compared with the cache-free model; "
     "family typed: SET on a column with a bind-processing datatype, keyed by string or Column object, value a Python "
     "literal / bindparam / excluded / NULL, on conflicting rows; family bindparam-flavour: bindparam(name) and "
-    "bindparam(name, None) in SET values under executemany + RETURNING and bindparam(name, default) supplied by the parameter sets; "
+    "bindparam(name, None) in SET values under executemany + RETURNING and bindparam(name, default) supplied by the parameter sets, and parameter sets that OMIT a bindparam(name, None); "
     "family render-sqlite / render-pg (ON CONSTRAINT included) and render-mysql (dict and ordered-list arguments, "
     "VALUES() and row-alias forms): the clause text tokenised and compared with the model's rendering; family "
     "batch-decision: all 64 flag combinations driven through the real _deliver_insertmanyvalues_batches; family plan-pg: "
@@ -388,6 +388,14 @@ def _bp_case(rng, flavour):
     existing, ps = _conflict_data(rng, 4)
     srt = int(rng.random() < 0.3)
     c = {"in": [0, 1, cols, sch[1], [[1, [1, [[1, 0]], []], sets, []]], 1, srt, rng.choice([2, 3, 1000]), existing, ps], "kind": "bindparam-flavour"}
+    if flavour == 5 and rng.random() < 0.6:
+        # heterogeneous parameter sets: some (often the first) do not supply the bindparam and get its None default
+        om = sorted(set([0] if rng.random() < 0.7 else []) | {j for j in range(len(ps)) if rng.random() < 0.25})
+        if om and len(om) < len(ps):
+            for j in om:
+                ps[j][1] = [None, None]
+            c["omit"] = om
+            c["kind"] = "bindparam-omitted"
     if flavour == 6:
         c["kind"] = "bindparam-default"  # formerly C56-set-bindparam-default-batched (fixed by 5319231)
     return c
@@ -934,7 +942,7 @@ def _tokens(compiled, start_marker):
     return out
 
 
-def _exec_once(t, eng, cols, clauses, ret, srt, page, existing, ps):
+def _exec_once(t, eng, cols, clauses, ret, srt, page, existing, ps, omit=()):
     import sqlalchemy as sa
     from sqlalchemy import exc as saexc
     from sqlalchemy.dialects.sqlite import insert as sinsert
@@ -952,9 +960,10 @@ def _exec_once(t, eng, cols, clauses, ret, srt, page, existing, ps):
             conn.execute(t.insert(), [dict(zip(keys, [_n(x) for x in r])) for r in existing])
         conn.commit()
         params = []
-        for r, bp in ps:
+        for j, (r, bp) in enumerate(ps):
             d = dict(zip(keys, [_n(x) for x in r]))
-            d.update({"b%d" % i: _n(v) for i, v in enumerate(bp)})
+            if j not in omit:  # an omitted bindparam(name, None) falls back to its default None: same as supplying None
+                d.update({"b%d" % i: _n(v) for i, v in enumerate(bp)})
             params.append(d)
         try:
             res = conn.execution_options(insertmanyvalues_page_size=page).execute(st, params)
@@ -988,6 +997,14 @@ def impl(c):
         warnings.simplefilter("ignore")
         if fam == 0:
             _, _, cols, ixs, clauses, ret, srt, page, existing, ps = t_in
+            if c.get("omit"):
+                # own engine: bindparam(name) and bindparam(name, None) share a compiled-cache key, and a cached
+                # form compiled from the required flavour rejects a parameter set that omits the key (C02 matter)
+                t, eng = _schema(cols, ixs, fresh=True)
+                try:
+                    return _exec_once(t, eng, cols, clauses, ret, srt, page, existing, ps, c["omit"])
+                finally:
+                    eng.dispose()
             t, eng = _schema(cols, ixs)
             return _exec_once(t, eng, cols, clauses, ret, srt, page, existing, ps)
         if fam == 6:
